@@ -148,8 +148,12 @@ class Check(object):
 
     # -- scratch
     def tmp(self, name=None):
+        """A fresh scratch path.  One in three has a blank and brackets in its name, one in three parentheses and an equals sign:
+        legal characters of a directory name that mean something to glob / regular-expression / shell-like helpers."""
         self._n += 1
-        return os.path.join(self.scratch, name or ("d%06d" % self._n))
+        if name is None:
+            name = ["d%06d", "d%06d [b=1]", "d%06d(Re=100)"][self._n % 3] % self._n
+        return os.path.join(self.scratch, name)
 
     def tmp_reuse(self, name=None):
         """A scratch path for ONE scenario at a time: every path is handed out twice in a row (its previous content removed
